@@ -12,10 +12,15 @@ P = {
         "overlay": {"internal/rules/zz_verif_c14_test.go": "c14/c14_test.go"},
         "eval_module": "Run.Eval_C14", "check_term": "check true",
         "n_quick": 1500, "n_thorough": 40000, "findings": {1: "C14-F1"},
+    }, {
+        "name": "ruleset", "pkg": "./internal/rules", "test": "TestVerifC14RuleSet",
+        "overlay": {"internal/rules/zz_verif_c14_test.go": "c14/c14_test.go"},
+        "eval_module": "Run.Eval_C14", "check_term": "check_rs true",
+        "n_quick": 800, "n_thorough": 20000, "findings": {1: "C14-F1"},
     }],
     "rule": "default rule (absent/partial/complete) x rule definition (every stage subset, ordered and permuted step kinds, "
             "multi-key steps, bad ids/overrides/conditions, backtracking unset/on/off, both modes) through the real NewRuleFactory/"
-            "CreateRule; non-trivial = loaded rule inheriting at least one stage from a default rule, or a rejected definition "
+            "CreateRule, and (stream 2) as YAML text through the real rule-set parser, rule-set processor and repository; non-trivial = loaded rule inheriting at least one stage from a default rule, or a rejected definition "
             "with >= 2 steps; distinct by hash of the generated input",
     "anchors": ["internal/rules/rule_factory_impl.go", "internal/config/default_rule.go", "internal/rules/config/rule.go"],
     "trusted": ["mechanism creation (catalogue lookup, override validation) is an oracle: known/unknown per reference",
